@@ -32,6 +32,10 @@ BEST_EFFORT = {
     ("api::writer::IndexWriter::commit", "index::wal::Wal::truncate", "matched"):
         "after publish the commit is fully applied; a failing log truncation is logged (the log ends in a commit marker, "
         "so nothing is replayed) and success is returned",
+    ("api::writer::IndexWriter::add_documents", "index::wal::Wal::append_add_doc", "matched"):
+        "batch add: a failed append restores queue and log (C23 R23.b) and returns the error",
+    ("api::writer::IndexWriter::add_documents", "index::wal::Wal::truncate_to", "matched"):
+        "batch add error arm: failure to cut the log back is logged, the original append error is returned",
     ("<api::writer::IndexWriter as core::ops::drop::Drop>::drop", "index::wal::Wal::sync", "matched"):
         "Drop cannot return an error; failure is reported on stderr",
 }
